@@ -314,8 +314,8 @@ pub fn rec_stages_tri(n: i64, l: i64, from: usize, stride: usize, matrix_max: us
 
 // ------------------------------------------------------------------ possible_intersection
 
-fn mk_seg<F: Fl>(p: P, q: P, subject: bool, in_out: bool, cid: u32) -> (Rc<SweepEvent<F>>, Rc<SweepEvent<F>>) {
-    let c = |p: P| Coord { x: F::from_f64(p.0 as f64), y: F::from_f64(p.1 as f64) };
+fn mk_seg<F: Fl>(p: P, q: P, subject: bool, in_out: bool, cid: u32, frame: i32) -> (Rc<SweepEvent<F>>, Rc<SweepEvent<F>>) {
+    let c = |p: P| Coord { x: F::from_f64(run::frame_value(p.0 as f64, frame)), y: F::from_f64(run::frame_value(p.1 as f64, frame)) };
     // left = lexicographically smaller end point (the caller passes p < q)
     let r = SweepEvent::new_rc(cid, c(q), false, Weak::new(), subject, true);
     let l = SweepEvent::new_rc(cid, c(p), true, Rc::downgrade(&r), subject, true);
@@ -327,16 +327,49 @@ fn mk_seg<F: Fl>(p: P, q: P, subject: bool, in_out: bool, cid: u32) -> (Rc<Sweep
 /// Replay of TLC-enumerated argument tuples through the real `possible_intersection`.
 /// input lines: {"id":n,"a":[[x,y],[x,y]],"b":[[x,y],[x,y]],"sa":0|1,"sb":0|1,"ioa":0|1,"iob":0|1}
 /// output: the same record plus what the function did.
-pub fn replay_pi<F: Fl>(path: &str) {
+fn snap_frame<F: Fl>(c: F, frame: i32, mag: f64) -> (i64, i64) {
+    if frame == 0 {
+        return snap1(c, mag);
+    }
+    let raw = c.to_f64();
+    let n = if frame >= 1000 { (raw * (frame - 1000) as f64).round() } else { (raw * 2f64.powi(-frame)).round() };
+    if !raw.is_finite() || n.abs() > run::COORD_CAP {
+        return (run::COORD_CAP as i64, run::DEV_CAP);
+    }
+    if F::from_f64(run::frame_value(n, frame)).to_f64() == raw {
+        (n as i64, 0)
+    } else {
+        (n as i64, 1)
+    }
+}
+
+fn ev_json_frame<F: Fl>(ids: &mut Ids<F>, e: &Rc<SweepEvent<F>>, mag: f64, frame: i32) -> String {
+    let id = ids.id(e);
+    let (x, dx) = snap_frame(e.point.x, frame, mag);
+    let (y, dy) = snap_frame(e.point.y, frame, mag);
+    let other = e.get_other_event().map(|o| ids.id(&o)).unwrap_or(0);
+    format!(
+        "[{},{},{},{},{},{},{},{},{},{},{},{},{},{}]",
+        id, x, y, dx.max(dy), e.is_left() as u8, other, e.is_subject as u8, e.contour_id, e.is_exterior_ring as u8,
+        et_code(e.get_edge_type()), e.is_in_out() as u8, e.is_other_in_out() as u8, rt_code(e.get_result_transition()), 0
+    )
+}
+
+pub fn replay_pi<F: Fl>(path: &str, frame: i32, offset: i64, only_axis: bool) {
     let text = std::fs::read_to_string(path).expect("pi file");
     for line in text.lines().filter(|l| !l.trim().is_empty()) {
         let v: serde_json::Value = serde_json::from_str(line).expect("json");
         let pt = |x: &serde_json::Value| (x[0].as_i64().unwrap(), x[1].as_i64().unwrap());
-        let (a1, a2, b1, b2) = (pt(&v["a"][0]), pt(&v["a"][1]), pt(&v["b"][0]), pt(&v["b"][1]));
+        let sh = |p: P| (p.0 + offset, p.1 + offset / 2);
+        let (a1, a2, b1, b2) = (sh(pt(&v["a"][0])), sh(pt(&v["a"][1])), sh(pt(&v["b"][0])), sh(pt(&v["b"][1])));
+        let axis = |p: P, q: P| p.0 == q.0 || p.1 == q.1;
+        if only_axis && !(axis(a1, a2) && axis(b1, b2)) {
+            continue;
+        }
         let flag = |k: &str| v[k].as_i64().unwrap() == 1;
         let mag = [a1, a2, b1, b2].iter().map(|p| p.0.abs().max(p.1.abs())).max().unwrap().max(1) as f64;
-        let (la, ra) = mk_seg::<F>(a1, a2, flag("sa"), flag("ioa"), 1);
-        let (lb, rb) = mk_seg::<F>(b1, b2, flag("sb"), flag("iob"), 2);
+        let (la, ra) = mk_seg::<F>(a1, a2, flag("sa"), flag("ioa"), 1, frame);
+        let (lb, rb) = mk_seg::<F>(b1, b2, flag("sb"), flag("iob"), 2, frame);
         let mut q: BinaryHeap<Rc<SweepEvent<F>>> = BinaryHeap::new();
         let mut ids: Ids<F> = Ids::new();
         for e in [&la, &ra, &lb, &rb] {
@@ -351,19 +384,84 @@ pub fn replay_pi<F: Fl>(path: &str) {
         pushed.reverse();
         let pushed_ids: Vec<String> = pushed.iter().map(|e| ids.id(e).to_string()).collect();
         let all = ids.all.clone();
-        let evs: Vec<String> = all.iter().map(|e| ev_json(&mut ids, e, mag)).collect();
+        let evs: Vec<String> = all.iter().map(|e| ev_json_frame(&mut ids, e, mag, frame)).collect();
         // bit-equality of the points of the new events
         let mut bitsets: Vec<(u64, u64)> = pushed.iter().map(|e| (e.point.x.bits(), e.point.y.bits())).collect();
         bitsets.sort();
         bitsets.dedup();
+        let fv = |c: i64| F::from_f64(run::frame_value(c as f64, frame)).to_f64();
         let inb = |e: &Rc<SweepEvent<F>>, p: P, q: P| -> bool {
             let (x, y) = (e.point.x.to_f64(), e.point.y.to_f64());
-            x >= p.0.min(q.0) as f64 && x <= p.0.max(q.0) as f64 && y >= p.1.min(q.1) as f64 && y <= p.1.max(q.1) as f64
+            x >= fv(p.0.min(q.0)) && x <= fv(p.0.max(q.0)) && y >= fv(p.1.min(q.1)) && y <= fv(p.1.max(q.1))
         };
         let inbox = pushed.iter().all(|e| inb(e, a1, a2) && inb(e, b1, b2));
         println!(
             "{{\"id\":{},\"inbox\":{},\"F\":\"{}\",\"a\":[[{},{}],[{},{}]],\"b\":[[{},{}],[{},{}]],\"sa\":{},\"sb\":{},\"ioa\":{},\"iob\":{},\"code\":{},\"pushed\":[{}],\"npoints\":{},\"ev\":[{}]}}",
             v["id"], inbox, F::NAME, a1.0, a1.1, a2.0, a2.1, b1.0, b1.1, b2.0, b2.1, v["sa"], v["sb"], v["ioa"], v["iob"], code, pushed_ids.join(","), bitsets.len(), evs.join(",")
         );
+    }
+}
+
+/// Spec -> implementation: run the real stages and the real operation on the inputs of
+/// TLC-generated behaviours and write the observations in geometric form (no ids), so that they
+/// can be compared with the model's behaviour step for step.
+/// input lines: {"A":mp,"B":mp,"op":".."} (rings of [x,y]); output: {"sorted":[...],"out":mp,"popped":n}
+pub fn replay_sweep(path: &str) {
+    let text = std::fs::read_to_string(path).expect("replay file");
+    for line in text.lines().filter(|l| !l.trim().is_empty()) {
+        let v: serde_json::Value = serde_json::from_str(line).expect("json");
+        let mp = |x: &serde_json::Value| -> IMp {
+            x.as_array()
+                .unwrap()
+                .iter()
+                .map(|p| {
+                    let rings: Vec<Vec<P>> = p.as_array().unwrap().iter().map(|r| r.as_array().unwrap().iter().map(|q| (q[0].as_i64().unwrap(), q[1].as_i64().unwrap())).collect()).collect();
+                    gen::IPoly { ext: rings.first().cloned().unwrap_or_default(), holes: rings.into_iter().skip(1).collect() }
+                })
+                .collect()
+        };
+        let (a, b) = (mp(&v["A"]), mp(&v["B"]));
+        let op = v["op"].as_str().unwrap();
+        let operation = run::op_of(op);
+        let (ga, gb) = (run::to_geo::<f64>(&a, 0), run::to_geo::<f64>(&b, 0));
+        let mag = run::magnitude(&[&a, &b]);
+        let inf = BoundingBox { min: Coord { x: f64::INFINITY, y: f64::INFINITY }, max: Coord { x: f64::NEG_INFINITY, y: f64::NEG_INFINITY } };
+        let (mut sbb, mut cbb) = (inf, inf);
+        let mut queue = fill_queue(&ga.0, &gb.0, &mut sbb, &mut cbb, operation);
+        let trivial = sbb.min.x > cbb.max.x || cbb.min.x > sbb.max.x || sbb.min.y > cbb.max.y || cbb.min.y > sbb.max.y;
+        let mut sorted_json = String::from("[");
+        let mut popped = 0;
+        if !trivial {
+            geo_booleanop::boolean::verif::set_budget(1 << 24);
+            let r = std::panic::catch_unwind(std::panic::AssertUnwindSafe(|| subdivide(&mut queue, &sbb, &cbb, operation)));
+            popped = geo_booleanop::boolean::verif::popped();
+            geo_booleanop::boolean::verif::set_budget(u64::MAX);
+            if let Ok(sorted) = r {
+                for (k, e) in sorted.iter().enumerate() {
+                    if k > 0 {
+                        sorted_json.push(',');
+                    }
+                    let pt = |e: &Rc<SweepEvent<f64>>| (snap1(e.point.x, mag).0, snap1(e.point.y, mag).0);
+                    let o = e.get_other_event().map(|o| pt(&o)).unwrap_or((0, 0));
+                    let (pp, po) = match e.get_prev_in_result() {
+                        Some(p) => (pt(&p), p.get_other_event().map(|o| pt(&o)).unwrap_or((0, 0))),
+                        None => ((0, 0), (0, 0)),
+                    };
+                    let has_pir = e.get_prev_in_result().is_some() as u8;
+                    let _ = write!(
+                        sorted_json,
+                        "[{},{},{},{},{},{},{},{},{},{},{},{},{},{},{}]",
+                        pt(e).0, pt(e).1, e.is_left() as u8, e.is_subject as u8, o.0, o.1, et_code(e.get_edge_type()), e.is_in_out() as u8,
+                        e.is_other_in_out() as u8, rt_code(e.get_result_transition()), has_pir, pp.0, pp.1, po.0, po.1
+                    );
+                }
+            } else {
+                sorted_json.push_str("\"panic\"");
+            }
+        }
+        sorted_json.push(']');
+        let (o, r) = run::call(&ga, &gb, operation, 'm', 'm', 1 << 24);
+        let out = r.map(|m| run::json_snapped(&run::snap(&m, 0, mag))).unwrap_or_else(|| "[]".into());
+        println!("{{\"op\":\"{}\",\"outcome\":\"{}\",\"popped\":{},\"trivial\":{},\"sorted\":{},\"out\":{}}}", op, o.outcome, popped, trivial, sorted_json, out);
     }
 }
